@@ -9,6 +9,8 @@
                                             -> <view> | <error tag>              (Model)
     chunks <n> <hex>                        -> <hex> <hex> …                     (Model)
     upload <checked 0|1> <bs> <timeout> <interval> <lat> <retry> <binary hex> <plan>
+    uploadr …same…      the repaired loop (an unanswered block is sent again, fixes/C18-5)
+    judgeheard <bs> <plan> <binary hex> <trace…>   -> delivered=0|1 (Spec.HpmDevice.uploadDelivered)
                                             -> <tag> <now> <trace>               (Model × Spec device)
         plan ::= - | item,item,…   item ::= o | p<polls> | f<polls>.<final cc> | e<cc> | t
                                             (p<k> = f<k>.0; blocks beyond the list: o)
@@ -126,6 +128,16 @@ def handleC18 (line : String) : String :=
       let (o, s) := uploadBinary ck bs timeout interval lat retry bin (Dev.init plan)
       s!"{o.tag} {s.now} " ++ " ".intercalate (s.dev.trace.map showEv)
     | _, _, _, _, _, _, _, _ => "bad-op"
+  | ["uploadr", ck, bs, timeout, interval, lat, retry, bin, plan] =>
+    match bit ck, bs.toNat?, timeout.toNat?, interval.toNat?, lat.toNat?, parseInt retry, ofHex bin, parsePlan plan with
+    | some ck, some bs, some timeout, some interval, some lat, some retry, some bin, some plan =>
+      let (o, s) := uploadBinaryR ck bs timeout interval lat retry bin (Dev.init plan)
+      s!"{o.tag} {s.now} " ++ " ".intercalate (s.dev.trace.map showEv)
+    | _, _, _, _, _, _, _, _ => "bad-op"
+  | "judgeheard" :: bs :: plan :: bin :: trace =>
+    match bs.toNat?, parsePlan plan, ofHex bin, trace.mapM parseEv with
+    | some bs, some plan, some bin, some tr => s!"delivered={b01 (uploadDelivered bs plan bin tr)}"
+    | _, _, _, _ => "bad-op"
   | "judge" :: bs :: plan :: bin :: trace =>
     match bs.toNat?, parsePlan plan, ofHex bin, trace.mapM parseEv with
     | some bs, some plan, some bin, some tr =>
